@@ -111,7 +111,13 @@ func writeTar(ents []ent, sub func(string) string, endBlocks bool) []byte {
 		case "under":
 			sizeField = func(b []byte) { octal(b, size/2) }
 		case "neg":
-			sizeField = func(b []byte) { b[0] = 0xff; for i := 1; i < len(b); i++ { b[i] = 0xff }; b[len(b)-1] = 0xf0 }
+			sizeField = func(b []byte) {
+				b[0] = 0xff
+				for i := 1; i < len(b); i++ {
+					b[i] = 0xff
+				}
+				b[len(b)-1] = 0xf0
+			}
 		case "bin":
 			sizeField = func(b []byte) {
 				b[0] = 0x80
@@ -300,7 +306,10 @@ func genArchive(rng *rand.Rand, kind string) archiveSpec {
 	} else {
 		a.Ents = baseChartEnts(pfx)
 	}
-	if rng.Intn(3) == 0 { // directory entries first, as tar(1) writes them
+	// directory entries first, as tar(1) writes them (always for plugin archives: the plugin
+	// extractor does not create parent directories, without them it would stop at the first
+	// nested benign entry and never reach the hostile ones)
+	if kind == "plugin" || rng.Intn(2) == 0 {
 		dirs := []ent{{Name: pfx + "templates/", Type: '5', Mode: 0o755}, {Name: pfx + "link/", Type: '5', Mode: 0o755}, {Name: pfx + "sub/", Type: '5', Mode: 0o755}}
 		if pfx != "" {
 			dirs = append([]ent{{Name: pfx, Type: '5', Mode: 0o755}}, dirs...)
